@@ -431,3 +431,251 @@ Proof.
     + unfold lf_at, set_lf in *. cbn [b_lfs]. rewrite nth_error_upd_other by congruence. rewrite Hl. exact Hf2.
     + rewrite Hv2. eapply vis_ext; [exact Hs|]. eapply lf_at_reg; eassumption.
 Qed.
+
+(* ---------- with ONE logical file the hypothesis of add_common_reject_invisible always holds ---------- *)
+Definition owns (st : bstate) (f : lfile) : Prop :=
+  forall k n sid, reg_find (b_phys st) k n = Some sid -> set_empty st sid = false -> reg_find (l_reg f) k n = Some sid.
+Definition Inv_single (st : bstate) : Prop := forall f, b_lfs st = [f] -> owns st f.
+
+Lemma try_add_find_other keys st f ty sn sid k n :
+  regk_ok keys (l_reg f) -> (k <> ty \/ oname_eqb n (norm_name sn) = false) ->
+  forall s, reg_find (l_reg f) k n = Some s -> set_empty st s = false \/ True ->
+  reg_find (l_reg (try_add_set st f ty sn sid)) k n = Some s.
+Proof.
+  intros Hk Hne s Hs _. unfold try_add_set. cbv zeta. change (match sn with Some [] => None | _ => sn end) with (norm_name sn).
+  assert (Hf : reg_find (forget_empty st (l_reg f) ty (norm_name sn)) k n = Some s).
+  { unfold forget_empty. destruct (reg_find (l_reg f) ty (norm_name sn)) as [s0|]; [|exact Hs].
+    destruct (set_empty st s0); [|exact Hs]. rewrite reg_find_remove_other; [exact Hs | exact Hne | apply Hk]. }
+  destruct (reg_find (forget_empty st (l_reg f) ty (norm_name sn)) ty (norm_name sn)); [exact Hs|].
+  cbn [l_reg]. rewrite reg_find_insert, reg_find_reposition_any, Hf. reflexivity.
+Qed.
+
+Lemma try_add_find_target keys st phys f ty sn sid :
+  regk_ok keys (l_reg f) -> sub_reg phys (l_reg f) -> reg_find phys ty (norm_name sn) = Some sid ->
+  reg_find (l_reg (try_add_set st f ty sn sid)) ty (norm_name sn) = Some sid.
+Proof.
+  intros Hk Hs Hp. unfold try_add_set. cbv zeta. change (match sn with Some [] => None | _ => sn end) with (norm_name sn).
+  destruct (reg_find (forget_empty st (l_reg f) ty (norm_name sn)) ty (norm_name sn)) as [x|] eqn:Ef.
+  - pose proof (forget_find keys st _ _ _ _ _ _ Hk Ef) as Hx. rewrite (Hs _ _ _ Hx) in Hp. inv Hp. exact Hx.
+  - cbn [l_reg]. rewrite reg_find_insert, reg_find_reposition_any, Ef, Nat.eqb_refl, oname_eqb_refl. reflexivity.
+Qed.
+
+Lemma set_empty_old st st1 extra s : b_sets st1 = b_sets st ++ extra -> Forall (fun x => s_items x = []) extra ->
+  set_empty st1 s = false -> (s < length (b_sets st))%nat /\ set_empty st s = false.
+Proof.
+  intros Hs He Hf. destruct (Nat.lt_ge_cases s (length (b_sets st))) as [Hlt|Hge].
+  - split; [exact Hlt|]. unfold set_empty, set_at in *. rewrite Hs, app_nth1 in Hf by exact Hlt. exact Hf.
+  - exfalso. unfold set_empty, set_at in Hf. rewrite Hs in Hf. rewrite app_nth2 in Hf by exact Hge.
+    set (d := {| s_ty := 0; s_name := None; s_items := [] |}) in *.
+    destruct (nth_in_or_default (s - length (b_sets st)) extra d) as [Hin|Hd].
+    + rewrite Forall_forall in He. rewrite (He _ Hin) in Hf. discriminate.
+    + rewrite Hd in Hf. discriminate.
+Qed.
+
+Lemma lookups_owns st f ty sn st1 sid :
+  Inv_reg st -> Inv_sub st -> b_lfs st = [f] -> owns st f -> get_or_make_set st ty sn = (st1, sid) ->
+  owns (set_lf st1 0 (try_add_set st1 f ty sn sid)) (try_add_set st1 f ty sn sid).
+Proof.
+  intros Hr Hsub Hl Hown Hg. destruct (gms_sub _ _ _ _ _ Hg) as (Hfind & Hmono & Hl1 & _ & (extra & Hs & Hex) & _).
+  destruct (gms_reg _ _ _ _ _ Hg Hr) as (_ & _ & _ & Hext).
+  assert (Hf : lf_at st 0 = Some f) by (unfold lf_at; rewrite Hl; reflexivity).
+  assert (Hkf : regk_ok (skeys st1) (l_reg f)) by (eapply regk_keys_ext; [exact Hext|]; eapply lf_at_reg; eassumption).
+  assert (Hsf : sub_reg (b_phys st1) (l_reg f)) by (eapply sub_reg_mono; [exact Hmono|]; eapply lf_at_sub; eassumption).
+  intros k n s Hp He. cbn [set_lf b_phys] in Hp.
+  assert (He1 : set_empty st1 s = false) by exact He.
+  destruct (set_empty_old _ _ _ _ Hs Hex He1) as [_ He0].
+  destruct (Nat.eq_dec k ty) as [->|Hk].
+  - destruct (oname_eqb n (norm_name sn)) eqn:En.
+    + apply oname_eqb_eq in En. subst n. rewrite Hfind in Hp. inv Hp. eapply try_add_find_target; eassumption.
+    + eapply try_add_find_other; [exact Hkf | right; exact En | | right; exact I].
+      apply Hown; [|exact He0]. revert Hp Hg. clear -En. unfold get_or_make_set. cbv zeta.
+      change (match sn with Some [] => None | _ => sn end) with (norm_name sn).
+      destruct (reg_find (b_phys st) ty (norm_name sn)); intros Hp Hg; inv Hg; [exact Hp|].
+      cbn [b_phys] in Hp. rewrite reg_find_insert in Hp. destruct (reg_find (b_phys st) ty n); [exact Hp|].
+      rewrite Nat.eqb_refl, En in Hp. discriminate.
+  - eapply try_add_find_other; [exact Hkf | left; exact Hk | | right; exact I].
+    apply Hown; [|exact He0]. revert Hp Hg. clear -Hk. unfold get_or_make_set. cbv zeta.
+    change (match sn with Some [] => None | _ => sn end) with (norm_name sn).
+    destruct (reg_find (b_phys st) ty (norm_name sn)); intros Hp Hg; inv Hg; [exact Hp|].
+    cbn [b_phys] in Hp. rewrite reg_find_insert in Hp. destruct (reg_find (b_phys st) k n); [exact Hp|].
+    destruct (Nat.eqb_spec k ty); [contradiction|]. cbn [andb] in Hp. discriminate.
+Qed.
+
+Lemma owns_same st st' f : b_phys st' = b_phys st -> b_sets st' = b_sets st -> owns st f -> owns st' f.
+Proof. intros Hp Hs H k n s. unfold set_empty, set_at. rewrite Hp, Hs. apply H. Qed.
+
+Lemma register_owns st sid it f ty n :
+  regk_ok (skeys st) (b_phys st) -> nth_error (skeys st) sid = Some (ty, n) -> reg_find (l_reg f) ty n = Some sid ->
+  owns st f -> owns (register st sid it) f.
+Proof.
+  intros Hr Hk Hf Hown k n0 s Hp He. cbn [register b_phys] in Hp.
+  destruct (Nat.eq_dec s sid) as [->|Hne].
+  - pose proof (reg_find_entry _ _ _ _ _ Hr Hp) as Hkey. rewrite Hk in Hkey. inv Hkey. exact Hf.
+  - apply Hown; [exact Hp|]. unfold set_empty, set_at, register in *. cbn [b_sets] in He. rewrite nth_upd_other in He by congruence. exact He.
+Qed.
+
+Definition Inv_one (st : bstate) : Prop :=
+  (b_lfs st = [] -> b_sets st = [] /\ b_phys st = []) /\ (forall f, b_lfs st = [f] -> owns st f).
+
+Lemma add_common_one hc st l ty name sn org dflt kw ds cast st' out :
+  add_common hc st l ty name sn org dflt kw ds cast = (st', out) -> Inv_reg st -> Inv_sub st -> Inv_one st -> Inv_one st'.
+Proof.
+  intros H Hr Hsub [Hnone Hone]. pose proof (add_common_lfs_len _ _ _ _ _ _ _ _ _ _ _ _ _ H) as Hlen.
+  unfold add_common in H. destruct (lf_at st l) as [f|] eqn:Hf; [|inv H; split; assumption].
+  assert (Hpos : b_lfs st <> []) by (unfold lf_at in Hf; destruct (b_lfs st); [destruct l; discriminate | discriminate]).
+  split; [intros E; rewrite E in Hlen; destruct (b_lfs st); [congruence | discriminate]|].
+  intros f' Hf'. rewrite Hf' in Hlen. destruct (b_lfs st) as [|f0 [|x r]] eqn:El; try discriminate. clear Hlen Hpos.
+  assert (l = 0%nat /\ f0 = f) as [-> ->] by (unfold lf_at in Hf; rewrite El in Hf; destruct l as [|[|l]]; cbn in Hf; inv Hf; auto).
+  specialize (Hone f eq_refl).
+  destruct (get_or_make_set st ty sn) as [st1 sid] eqn:Hg.
+  pose proof (lookups_owns st f ty sn st1 sid Hr Hsub El Hone Hg) as Ho2.
+  set (f1 := try_add_set st1 f ty sn sid) in *. set (st2 := set_lf st1 0 f1) in *.
+  destruct (gms_sub _ _ _ _ _ Hg) as (Hfind & Hmono & Hl1 & _ & _ & _).
+  destruct (gms_reg _ _ _ _ _ Hg Hr) as (Hr1 & Hkey & _ & Hext).
+  assert (Hl2 : b_lfs st2 = [f1]) by (unfold st2; cbn [set_lf b_lfs]; rewrite Hl1, El; reflexivity).
+  assert (Hst2 : forall fx, b_lfs st2 = [fx] -> owns st2 fx) by (intros fx E; rewrite Hl2 in E; inv E; exact Ho2).
+  destruct name; try (inv H; apply Hst2; exact Hf').
+  destruct (hc && negb (hc_string s)); [inv H; apply Hst2; exact Hf'|].
+  match type of H with context [match ?o with OK _ => _ | Err _ => _ end] => destruct o end; [|inv H; apply Hst2; exact Hf'].
+  match type of H with context [set_attributes ?a ?b ?c ?d] => destruct (set_attributes a b c d) as [it|] end; inv H; [|apply Hst2; exact Hf'].
+  cbn [register b_lfs] in Hf'. change (b_lfs st2) with (b_lfs st2) in Hf'. rewrite Hl2 in Hf'. inv Hf'.
+  apply (register_owns st2 sid it f1 ty (norm_name sn)).
+  - apply Hr1.
+  - exact Hkey.
+  - eapply try_add_find_target; [| |exact Hfind].
+    + eapply regk_keys_ext; [exact Hext|]. eapply lf_at_reg; [exact Hr | exact Hf].
+    + eapply sub_reg_mono; [exact Hmono|]. eapply lf_at_sub; [exact Hsub | exact Hf].
+  - exact Ho2.
+Qed.
+
+Lemma upd_single {A} (l : list A) n x y : upd l n x = [y] -> exists a, l = [a] /\ ((n = 0%nat /\ y = x) \/ (n <> 0%nat /\ y = a)).
+Proof.
+  destruct l as [|a [|b r]]; [destruct n; discriminate | | destruct n as [|[|n]]; discriminate].
+  destruct n as [|n]; cbn [upd]; intros H.
+  - exists a. split; [reflexivity|]. left. split; [reflexivity | congruence].
+  - exists a. split; [reflexivity|]. right. split; [discriminate|]. destruct n; cbn in H; congruence.
+Qed.
+
+Lemma set_lf_one st l f f' : lf_at st l = Some f -> l_reg f' = l_reg f -> Inv_one st -> Inv_one (set_lf st l f').
+Proof.
+  intros Hf Hreg [Hnone Hone]. split.
+  - cbn [set_lf b_lfs]. intros E. exfalso. unfold lf_at in Hf. destruct (b_lfs st) as [|a r]; [destruct l; discriminate|]. destruct l; discriminate.
+  - cbn [set_lf b_lfs]. intros fx E. destruct (upd_single _ _ _ _ E) as (a & Ea & [[-> ->] | [Hl ->]]).
+    + assert (a = f) by (unfold lf_at in Hf; rewrite Ea in Hf; inv Hf; reflexivity). subst a.
+      intros k n s Hp He. unfold owns in Hone. rewrite Hreg. apply (Hone f Ea k n s Hp He).
+    + eapply owns_same; [| |apply Hone; exact Ea]; reflexivity.
+Qed.
+
+Lemma items_only_one st st' : b_lfs st' = b_lfs st -> b_sets st' = b_sets st -> b_phys st' = b_phys st -> Inv_one st -> Inv_one st'.
+Proof.
+  intros Hl Hs Hp [Hnone Hone]. split; [rewrite Hl, Hs, Hp; exact Hnone|]. intros f E. rewrite Hl in E.
+  eapply owns_same; [exact Hp | exact Hs | apply Hone; exact E].
+Qed.
+
+Lemma lookups_one st l f ty sn st1 sid :
+  Inv_reg st -> Inv_sub st -> Inv_one st -> lf_at st l = Some f -> get_or_make_set st ty sn = (st1, sid) ->
+  Inv_one (set_lf st1 l (try_add_set st1 f ty sn sid)).
+Proof.
+  intros Hr Hsub [Hnone Hone] Hf Hg. destruct (gms_sub _ _ _ _ _ Hg) as (_ & _ & Hl1 & _ & _ & _).
+  split.
+  - cbn [set_lf b_lfs]. rewrite Hl1. intros E. exfalso. unfold lf_at in Hf. destruct (b_lfs st) as [|a r]; [destruct l; discriminate|]. destruct l; discriminate.
+  - cbn [set_lf b_lfs]. rewrite Hl1. intros fx E. destruct (upd_single _ _ _ _ E) as (a & Ea & [[-> ->] | [Hl ->]]).
+    + assert (a = f) by (unfold lf_at in Hf; rewrite Ea in Hf; inv Hf; reflexivity). subst a.
+      apply (lookups_owns st f ty sn st1 sid Hr Hsub Ea (Hone f Ea) Hg).
+    + exfalso. unfold lf_at in Hf. rewrite Ea in Hf. destruct l as [|[|l]]; [congruence | discriminate | discriminate].
+Qed.
+
+Theorem step_inv_one ps st o ps' st' out : step ps st o = (ps', st', out) -> Inv_reg st -> Inv_sub st -> Inv_one st -> Inv_one st'.
+Proof.
+  destruct o; unfold step.
+  - unfold add_lf. destruct hid; try solve [intros H; inv H; auto]. destruct seq; try solve [intros H; inv H; auto].
+    repeat match goal with |- context [if ?c then _ else _] => destruct c end; intros H Hr Hs Hi; inv H; try exact Hi.
+    destruct Hi as [Hnone Hone]. split; cbn [b_lfs b_sets b_phys].
+    + intros E. destruct (b_lfs st); discriminate.
+    + intros fx E. destruct (b_lfs st) as [|a r] eqn:El; [|destruct r; discriminate].
+      destruct (Hnone eq_refl) as [Es Ep]. intros k0 n0 s0 Hp. cbn [b_phys] in Hp. rewrite Ep in Hp. discriminate.
+  - destruct (add_common (p_hc ps) st l ty name sn origin default_origin kw None None) as [s1 o1] eqn:E.
+    intros H; injection H as <- <- <-. eapply add_common_one; eassumption.
+  - destruct (add_origin (p_hc ps) st l name sn origin kw) as [s1 o1] eqn:E. intros H Hr Hs Hi; injection H as <- <- <-.
+    unfold add_origin in E. destruct (lf_at st l) as [f|] eqn:Hf; [|inv E; exact Hi].
+    destruct (get_or_make_set st T_ORIGIN sn) as [st1 sid] eqn:Hg.
+    pose proof (lookups_one _ _ _ _ _ _ _ Hr Hs Hi Hf Hg) as Hi1.
+    pose proof (lookups_sub _ _ _ _ _ _ _ Hr Hs Hf Hg) as Hs1.
+    assert (Hr1 : Inv_reg (set_lf st1 l (try_add_set st1 f T_ORIGIN sn sid))).
+    { destruct (gms_reg _ _ _ _ _ Hg Hr) as (Hr0 & He & Hlfs & Hext).
+      apply set_lf_reg; [exact Hr0|]. apply try_add_reg; [|exact He]. eapply regk_keys_ext; [exact Hext|]. eapply lf_at_reg; eassumption. }
+    match type of E with context [match ?c with Some _ => _ | None => _ end = _] => destruct c end; [inv E; exact Hi1|].
+    match type of E with context [add_common ?a ?b ?c ?d ?e0 ?f0 ?g ?h ?i ?j ?k] =>
+      destruct (add_common a b c d e0 f0 g h i j k) as [st3 out3] eqn:Ea end.
+    assert (Hi3 : Inv_one st3) by (eapply add_common_one; [exact Ea | exact Hr1 | exact Hs1 | exact Hi1]).
+    destruct out3 as [[iid|]|e3]; try (inv E; exact Hi3). inv E.
+    assert (Hi4 : Inv_one (origin_fsn_default (p_hc ps) st3 sid iid)).
+    { unfold origin_fsn_default. destruct (fst (nth _ (i_attrs (item_at st3 iid)) (SPNone, None))); try exact Hi3.
+      destruct (p_hc ps); [|exact Hi3]. revert Hi3. apply items_only_one; reflexivity. }
+    unfold origin_backfill. match goal with |- context [if ?c then _ else _] => destruct c end; [|exact Hi4].
+    set (s4 := origin_fsn_default (p_hc ps) st3 sid iid) in *.
+    destruct (lf_at s4 l) as [x|] eqn:Hx.
+    + match goal with |- Inv_one (set_lf ?s l ?f4) => apply (set_lf_one s l x f4) end; [exact Hx | reflexivity|].
+      revert Hi4. apply items_only_one; reflexivity.
+    + exfalso. apply add_common_lfs_len in Ea. cbn [set_lf b_lfs] in Ea. rewrite length_upd in Ea.
+      assert (L1 : b_lfs st1 = b_lfs st) by (unfold get_or_make_set in Hg; cbv zeta in Hg; destruct (reg_find _ _ _); inv Hg; reflexivity).
+      rewrite L1 in Ea. unfold lf_at in Hx, Hf. apply nth_error_None in Hx. assert (l < length (b_lfs st))%nat by (apply nth_error_Some; congruence).
+      assert (E4 : b_lfs s4 = b_lfs st3).
+      { unfold s4, origin_fsn_default. destruct (fst _); try reflexivity. destruct (p_hc ps); reflexivity. }
+      rewrite E4 in Hx. lia.
+  - destruct (add_channel (p_hc ps) st l name sn origin kw bad_data data ds cast) as [s1 o1] eqn:E. intros H Hr Hs Hi; injection H as <- <- <-.
+    unfold add_channel in E. destruct (lf_at st l) as [f|] eqn:Hf; [|inv E; exact Hi].
+    destruct bad_data; [inv E; exact Hi|].
+    destruct (unique_dataset_name st f _ ds); [|inv E; exact Hi].
+    assert (Hsd : forall s3 f3 k d, Inv_one s3 -> lf_at s3 l = Some f3 -> Inv_one (set_lf s3 l (set_data f3 k d))).
+    { intros s3 f3 k d H3 Hl3. apply (set_lf_one s3 l f3); [exact Hl3 | reflexivity | exact H3]. }
+    destruct cast as [[c|]|].
+    + destruct (add_common (p_hc ps) st l T_CHANNEL name sn origin default_origin kw (Some a) (Some c)) as [st3 out3] eqn:Ea.
+      assert (Hi3 : Inv_one st3) by (eapply add_common_one; eassumption).
+      destruct out3 as [[iid|]|e3]; [destruct data; [destruct (lf_at st3 l) eqn:Hl3|]|..]; inv E; try exact Hi3. apply Hsd; assumption.
+    + destruct (get_or_make_set st T_CHANNEL sn) as [st1 sid] eqn:Hg. inv E. eapply lookups_one; eassumption.
+    + destruct (add_common (p_hc ps) st l T_CHANNEL name sn origin default_origin kw (Some a) None) as [st3 out3] eqn:Ea.
+      assert (Hi3 : Inv_one st3) by (eapply add_common_one; eassumption).
+      destruct out3 as [[iid|]|e3]; [destruct data; [destruct (lf_at st3 l) eqn:Hl3|]|..]; inv E; try exact Hi3. apply Hsd; assumption.
+  - destruct (add_frame (p_hc ps) st l name sn origin channels chan_attr_idx kw) as [s1 o1] eqn:E. intros H Hr Hs Hi; injection H as <- <- <-.
+    unfold add_frame in E. destruct channels; try (inv E; exact Hi). destruct l0; [inv E; exact Hi|].
+    match type of E with context [if ?c then _ else _] => destruct c end; [|inv E; exact Hi].
+    eapply add_common_one; eassumption.
+  - unfold assign. destruct (nth_error (b_items st) i) as [it|]; [|intros H; inv H; auto].
+    match goal with |- context [match ?x with OK _ => _ | Err _ => _ end] => destruct x end; intros H Hr Hs Hi; inv H; exact Hi.
+  - unfold add_nofmt_data. destruct (lf_at st l) as [f|] eqn:Hf; intros H Hr Hs Hi; inv H; [|exact Hi].
+    apply (set_lf_one st l f); [exact Hf | reflexivity | exact Hi].
+  - intros H; inv H; auto.
+  - intros H; inv H; auto.
+  - destruct (p_stack ps); intros H; inv H; auto.
+  - unfold set_origin. destruct (nth_error (b_items st) i) as [it|]; [|intros H; inv H; auto].
+    destruct r; intros H Hr Hs Hi; inv H; exact Hi.
+  - unfold set_header. destruct (lf_at st l) as [f|] eqn:Hf; [|intros H; inv H; auto].
+    destruct is_id, r; intros H Hr Hs Hi; inv H; try exact Hi; (apply (set_lf_one st l f); [exact Hf | reflexivity | exact Hi]).
+Qed.
+
+Lemma inv_one_init : Inv_one b_init.
+Proof. split; [intros _; split; reflexivity | intros f E; discriminate]. Qed.
+
+Theorem run_ops_invs : forall ops ps st, Inv_reg st -> Inv_sub st -> Inv_one st ->
+  let st' := bstate_of (run_ops ps st ops) in Inv_reg st' /\ Inv_sub st' /\ Inv_one st'.
+Proof.
+  induction ops as [|o ops IH]; intros ps st Hr Hs Hi; [cbn; auto|].
+  cbn [run_ops]. destruct (step ps st o) as [[ps1 st1] out] eqn:E.
+  specialize (IH ps1 st1 (step_inv_reg _ _ _ _ _ _ E Hr) (step_inv_sub _ _ _ _ _ _ E Hr Hs) (step_inv_one _ _ _ _ _ _ E Hr Hs Hi)).
+  cbn zeta in *. destruct (run_ops ps1 st1 ops) as [[ps2 st2] outs]. exact IH.
+Qed.
+
+(* a DLISFile with ONE logical file, after any sequence of API calls: a rejected add_* leaves the visible registry unchanged —
+   no side condition *)
+Theorem single_lf_reject_invisible ops ps hc l ty name sn org dflt kw ds cast st' e f :
+  let st := bstate_of (run_ops ps b_init ops) in
+  b_lfs st = [f] ->
+  add_common hc st l ty name sn org dflt kw ds cast = (st', Rejected e) ->
+  l = 0%nat -> exists f', lf_at st' 0 = Some f' /\ vis st' (l_reg f') = vis st (l_reg f).
+Proof.
+  intros st Hl H ->. destruct (run_ops_invs ops ps b_init inv_reg_init inv_sub_init inv_one_init) as (Hr & Hs & [_ Hone]). fold st in Hr, Hs, Hone.
+  assert (Hf : lf_at st 0 = Some f) by (unfold lf_at; rewrite Hl; reflexivity).
+  destruct (add_common_reject_invisible _ _ _ _ _ _ _ _ _ _ _ _ _ _ H Hr Hf) as [Hv _]; [|exact Hv].
+  intros sid Hp He. apply (Hone f Hl _ _ _ Hp He).
+Qed.
